@@ -75,7 +75,7 @@ def run_verus(path, outdir, tag, extra=(), _retry=True):
         # diagnostics of Verus' worker threads interleaved on stderr (or the run was cut short): once more, single-threaded
         return run_verus(path, outdir, tag, list(extra) + ['--num-threads', '1'], _retry=False)
     return {'cmd': ' '.join(cmd), 'rc': p.returncode, 'json': js, 'diags': diags, 'wall_s': dt,
-            'stderr_tail': p.stderr[-2000:], 'garbled': garbled}
+            'stderr_tail': p.stderr[-2000:], 'garbled': garbled, 'stderr': p.stderr}
 
 
 def classify(d):
@@ -219,6 +219,10 @@ def analyse(res, gen, r):
             res['limits'].append(entry)
         else:
             compile_errors.append(entry)
+    nfail_fns = len({e['fn'] for e in res['failures'] if e.get('fn')} | {e['fn'] for e in res['limits'] if e.get('fn')})
+    if not compile_errors and res['errors'] > nfail_fns + sum(1 for e in res['failures'] if not e.get('fn')) and r.get('garbled'):
+        res['status'] = 'verus-crashed'
+        res['reason'] = 'verus reports %d failing functions but only %d could be read from its (interleaved) diagnostics' % (res['errors'], nfail_fns)
     if compile_errors:
         res['status'] = 'compile-error'
         res['reason'] = compile_errors[0]['message']
@@ -240,6 +244,14 @@ def analyse_canary(res, gen_c, r):
         return
     text_lines = gen_c['text'].split('\n')
     hit = set()
+    # robust against diagnostics whose JSON lines were interleaved with other output (observed under load: the first
+    # diagnostics of a run collide with rustc's own warnings): any span that starts on a canary line counts
+    for m_ in re.finditer(r'"line_start":(\d+)', r.get('stderr') or ''):
+        ln = int(m_.group(1))
+        if 0 < ln <= len(text_lines) and '/*canary*/' in text_lines[ln - 1]:
+            f, _ = locate(gen_c, ln)
+            if f:
+                hit.add(f['qual'])
     for d in r['diags']:
         if 'assertion failed' not in d.get('message', ''):
             continue
